@@ -4,6 +4,14 @@ use roxmltree::Node;
 use std::fmt::Display;
 use std::str::FromStr;
 
+/// Text of an element: all of its text children in document order, also when comments,
+/// processing instructions or elements of extensions stand between or before them.
+pub fn text(node: &Node) -> Option<String> {
+    let mut parts = node.children().filter(|n| n.is_text()).peekable();
+    parts.peek()?;
+    Some(parts.filter_map(|n| n.text()).collect())
+}
+
 pub fn opt_string(parent_node: &Node, tag_name: &str) -> Result<Option<String>> {
     if let Some(tag) = parent_node.children().find(|n| n.has_tag_name(tag_name)) {
         let expected_type = "String";
@@ -16,8 +24,7 @@ pub fn opt_string(parent_node: &Node, tag_name: &str) -> Result<Option<String>> 
         } else {
             Error::invalid(format!("XML tag '{tag_name}' has no 'type' attribute"))?
         }
-        let text = tag.text().unwrap_or("");
-        Ok(Some(text.to_string()))
+        Ok(Some(text(&tag).unwrap_or_default()))
     } else {
         Ok(None)
     }
@@ -43,7 +50,7 @@ fn opt_num<T: FromStr + Sync + Send>(
         } else {
             Error::invalid(format!("XML tag '{tag_name}' has no 'type' attribute"))?
         }
-        let text = tag.text().unwrap_or("0");
+        let text = text(&tag).unwrap_or_else(|| String::from("0"));
         if let Ok(parsed) = text.parse::<T>() {
             Ok(Some(parsed))
         } else {
